@@ -43,6 +43,8 @@ class CallMixin:
         return VClass(v.cls, *reversed(self.world.class_by_name(v.cls)))
       mod, cls, m = self.world.method(v.cls, name)
       if m is not None:
+        if world_mod.is_cached_property(m) and not self.spec_mode and not world_mod.memo_is_stable(cls, m):
+          return self.memoised_get(v, mod, cls, m, name)
         if world_mod.is_property(m):
           return self.call_method(v, mod, cls, m, [], {})
         decs = world_mod.decorators(m)
@@ -137,6 +139,23 @@ class CallMixin:
     nn = self.to_int(n)
     lo, hi = self.slice_bounds(sl, nn)
     return VTuple([VInt(z3.simplify(lo)), VInt(z3.simplify(hi)), VInt(1)])
+
+  def memoised_get(self, v, mod, cls, m, name):
+    """functools.cached_property whose inputs the class keeps changing: the first read stores the value in the instance and
+    every later read returns the stored one.  An object that existed before the verified call may already hold a value
+    memoised in ANY earlier state: an unconstrained value of the getter's shape."""
+    memo = self.__dict__.setdefault('_memo', {})
+    key = (id(v), name)
+    if key in memo:
+      return memo[key][1]
+    val = self.call_method(v, mod, cls, m, [], {})
+    if id(v) not in self.__dict__.get('run_created', ()):
+      stale = z3.Bool(self.path.fresh_name(f'{v.cls}.{name}.memoised'))
+      if self.branch(stale):
+        val = self.fresh_like(val, f'{v.cls}.{name}.memo')
+        self.__dict__.setdefault('memo_reads', []).append(f'{v.cls}.{name}')
+    memo[key] = (v, val)
+    return val
 
   def setattr_(self, obj, name, v):
     if isinstance(obj, VOpt):
